@@ -541,6 +541,17 @@ def _run(chk, wd, proved):
     ctx = multiprocessing.get_context('fork')
     with ctx.Pool(vlib.NCPU, initializer=S.worker_init, initargs=(wd,)) as pool:
         hres = pool.map(S.history_job, [j for _, j in hjobs], chunksize=32)
+        # the child's descriptors after fork: (FastCGI)Subprocess._prepare_child_fds()
+        fdjobs = [(f, r, n, x) for f in (False, True) for r in (False, True) for n in (3, 5) for x in (0, 1, 4)]
+        fdres = pool.map(S.childfds_job, fdjobs, chunksize=4)
+        # PROCESS_LOG events as an event listener sees them: subscription (type with / without its subtypes, both
+        # orders) and dispatch order
+        pljobs = [(sel, st) for st in (False, True) for sel in (
+            ['ProcessLogEvent'], ['ProcessLogEvent', 'ProcessLogStdoutEvent'], ['ProcessLogStdoutEvent', 'ProcessLogEvent'],
+            ['ProcessLogEvent', 'ProcessLogStderrEvent'], ['ProcessLogStderrEvent', 'ProcessLogEvent'],
+            ['ProcessLogStdoutEvent', 'ProcessLogStderrEvent'], ['ProcessLogStderrEvent'], ['ProcessLogStdoutEvent'],
+            ['ProcessLogStdoutEvent', 'ProcessLogEvent', 'ProcessLogStderrEvent'])]
+        plres = pool.map(S.poolorder_job, pljobs, chunksize=1)
     with ctx.Pool(vlib.NCPU, initializer=_chan_init, initargs=(wd,)) as pool:
         cres = pool.map(_chan_job, cjobs, chunksize=64)
         sres = pool.map(_strip_job, sjobs, chunksize=512)
@@ -549,6 +560,20 @@ def _run(chk, wd, proved):
     distinct = set()
     known_ansi = 0
     known_plog = 0
+    # ---- child descriptors, listener view of PROCESS_LOG events (judged on the implementation)
+    for job, why in zip(fdjobs, fdres):
+        nruns += 1
+        chk.dist('childfds:' + ('fcgi' if job[0] else 'program'))
+        if why:
+            chk.violation({'kind': 'the forked child\'s descriptors are not the pipes of its channels', 'why': why,
+                           'fastcgi': job[0], 'redirect_stderr': job[1], 'open_at_start': job[2], 'unrelated_opened_first': job[3],
+                           'how': 'harness/c07_seam.py:childfds_job'})
+    for job, why in zip(pljobs, plres):
+        nruns += 1
+        chk.dist('listenerview')
+        if why:
+            chk.violation({'kind': 'PROCESS_LOG events do not reach an event listener pool once each and in the order of the log',
+                           'why': why, 'pool_events': job[0], 'strip_ansi': job[1], 'how': 'harness/c07_seam.py:poolorder_job'})
     # ---- stripEscapes
     cases = ['(%s, %s)' % (vlib.bytes_lit(s), vlib.bytes_lit(r)) for s, r in zip(sjobs, sres)]
     bad, errs = vlib.coq_compare(IMPORTS, 'bytes * bytes', 'check_strip', cases, wd, tag='strip', shard=1500)
@@ -652,7 +677,10 @@ def _run(chk, wd, proved):
                    'the first 18) followed by a flush-and-reap epilogue; every cut point of 6 streams with 0-2 capture '
                    'sections where the part after the cut is still in the pipe at reap (capture on stdout / through redirect / on '
                    'stderr / off); 1, 8191, 8192, 8193, 40000, 65536 bytes still unread in the stdout and/or stderr pipe at reap '
-                   '(pipe capacity 64 KiB; the seam read honours the requested size); a read error (EIO/EBADF) on one channel during the '
+                   '(pipe capacity 64 KiB; the seam read honours the requested size); the child\'s descriptors 0/1/2 after the real '
+                   '_prepare_child_fds() of Subprocess and FastCGISubprocess (redirect on/off); real EventListenerPool with one '
+                   'listener: PROCESS_LOG subscriptions with/without subtypes in both orders, buffering once each, dispatch order; '
+                   ' a read error (EIO/EBADF) on one channel during the '
                    'drain with output pending on the other; rotating logs (maxbytes 16, backups 2/1/0) with a reopen request at every '
                    'position (judged only); logfile NONE / AUTO; plus the descriptor-reuse scenarios and random '
                    'long histories; distinct_nontrivial = distinct trace checksums of histories (all contain at least one spawn) '
